@@ -272,7 +272,13 @@ def parse_runs(text):
     runs = []
     cur = None
     crash = None
+    last_start = None
     for l in text.split("\n"):
+        if l.startswith("START "):
+            m = re.match(r"START seed=(\d+) strat=(\d+) script=(.*)", l)
+            if m:
+                last_start = (int(m.group(1)), int(m.group(2)), m.group(3))
+            continue
         if l.startswith("RUN "):
             m = re.match(r"RUN seed=(\d+) strat=(\d+) script=(.*)", l)
             cur = dict(seed=int(m.group(1)), strat=int(m.group(2)), script=m.group(3), trace=[], fails=[], status="incomplete",
@@ -292,7 +298,8 @@ def parse_runs(text):
             if runs and runs[-1]["status"] == "incomplete":
                 crash = runs[-1]
             else:
-                crash = dict(seed=0, strat=0, script="?", trace=[], fails=[], status="incomplete", decisions="", crashlog=[])
+                ls = last_start or (0, 0, "?")
+                crash = dict(seed=ls[0], strat=ls[1], script=ls[2], trace=[], fails=[], status="incomplete", decisions="", crashlog=[])
                 runs.append(crash)
             crash["status"] = "crash"
             crash["crashlog"].append(l)
@@ -306,6 +313,7 @@ def parse_runs(text):
 
 def drive(comp, text):
     """pipe client output through the Lean driver; returns (verdicts[list of str], summary dict)"""
+    text = "\n".join(l for l in text.split("\n") if not l.startswith(("START ", "CRASH ", "CRASHLOG ")))
     p = subprocess.run([DRIVER, comp], input=text, stdout=subprocess.PIPE, stderr=subprocess.STDOUT, text=True, timeout=1200)
     verdicts = []
     summary = {}
@@ -349,6 +357,107 @@ def write_replay(prop, payload):
     path = os.path.join(REPLAYS, "%s-%s.json" % (prop, h))
     open(path, "w").write(blob)
     return path
+
+
+# ---------------------------------------------------------------------------------------------
+# source-line coverage of the modelled headers under the harness (part of the tie: a line of the
+# header that no script executes is code the trace-acceptance check has never compared with the model)
+# ---------------------------------------------------------------------------------------------
+
+def coverage_check(cname, c, seed):
+    """returns (summary dict or None, list of 'file:line: text' never executed and not allow-listed)"""
+    hdrs = c.get("cov_headers")
+    if not hdrs:
+        return None, []
+    import shutil
+    src = os.path.join(HARN, "clients", c["client"] + ".cpp")
+    deps = [src] + [os.path.join(HARN, f) for f in sorted(os.listdir(HARN)) if f.endswith((".hpp", ".cpp"))]
+    key = tree_hash(deps) + "-s%d" % seed
+    d = os.path.join(CACHE, "cov", cname)
+    res_file = os.path.join(d, "result.json")
+    with Lock("cov-" + cname):
+        if os.path.exists(res_file):
+            try:
+                r = json.load(open(res_file))
+                if r.get("key") == key:
+                    return r["summary"], r["missing"]
+            except ValueError:
+                pass
+        shutil.rmtree(d, ignore_errors=True)
+        os.makedirs(d)
+        tap = c.get("tap", False)
+        rt = os.path.join(d, "vrt.o")
+        rc, out = sh(["g++", "-std=c++17", "-O1", "-g", "-c", os.path.join(HARN, "vrt.cpp"), "-o", rt])
+        if rc != 0:
+            return dict(error=out[-1500:]), ["coverage build failed (vrt)"]
+        objs = [rt]
+        flags = ["-O0", "--coverage"] + list(c.get("flags", ()))
+        if tap:
+            tp = os.path.join(d, "vtap.o")
+            rc, out = sh(["g++", "-std=c++17", "-O1", "-g", "-c", os.path.join(HARN, "vtap.cpp"), "-o", tp])
+            if rc != 0:
+                return dict(error=out[-1500:]), ["coverage build failed (vtap)"]
+            objs.append(tp)
+            flags.append("-fsanitize=thread")
+        obj = os.path.join(d, "c.o")
+        exe = os.path.join(d, "c")
+        cxx = [x for x in CXX if x != "-O1"]
+        rc, out = sh(cxx + flags + ["-include", os.path.join(HARN, "vshim.hpp"), "-c", src, "-o", obj], timeout=900)
+        if rc != 0:
+            return dict(error=out[-1500:]), ["coverage build failed:\n" + out[-1500:]]
+        rc, out = sh(["g++", obj] + objs + ["-o", exe, "-pthread", "--coverage"], timeout=600)
+        if rc != 0:
+            return dict(error=out[-1500:]), ["coverage link failed:\n" + out[-1500:]]
+        ndirected = int(subprocess.run([exe, "--count-directed"], stdout=subprocess.PIPE, text=True).stdout.strip() or "0")
+        nd = c.get("directed_runs", 4)
+        run_client(exe, ["--directed", "--runs", str(nd), "--seed", str(seed)], ndirected * nd)
+        nr = c.get("cov_runs", 200)
+        run_client(exe, ["--runs", str(nr), "--seed", str(seed * 131), "--size", "1"], nr)
+        run_client(exe, ["--runs", str(nr // 2), "--seed", str(seed * 131 + 7), "--size", "2"], nr // 2)
+        sh(["gcov", "-p", "-o", d, obj], cwd=d, timeout=600)
+        allow = [re.compile(a) for a in c.get("cov_allow", [])]
+        missing = []
+        total = 0
+        hit = 0
+        for h in hdrs:
+            want = os.path.join(REPO, h).replace("/", "#") + ".gcov"
+            path = os.path.join(d, want)
+            if not os.path.exists(path):
+                missing.append("%s: no coverage data (header not compiled into the client?)" % h)
+                continue
+            for l in open(path, errors="replace"):
+                parts = l.split(":", 2)
+                if len(parts) < 3:
+                    continue
+                cnt, ln, text = parts[0].strip(), parts[1].strip(), parts[2].rstrip("\n")
+                if cnt == "-" or ln == "0":
+                    continue
+                total += 1
+                if cnt == "=====" and text.strip() in ("}", "};"):
+                    continue    # compiler-generated unwinding clean-up at a closing brace (e.g. bad_alloc paths)
+                if cnt in ("#####", "=====") or cnt.rstrip("*") == "0":
+                    if any(a.search(text) for a in allow):
+                        continue
+                    missing.append("%s:%s: %s" % (h, ln, text.strip()))
+                else:
+                    hit += 1
+        # member functions the client never instantiates have no code for gcov to count: ask clang's typed AST
+        import instcov
+        iflags = [x for x in cxx[1:] if x not in ("-g", "-pthread", "-std=c++17")] + list(c.get("flags", ())) + [
+            "-include", os.path.join(HARN, "vshim.hpp")]
+        nmem, imiss = instcov.inst_coverage(src, hdrs, iflags, allow=c.get("inst_allow", ()))
+        missing += imiss
+        summary = dict(headers=hdrs, lines_instrumented=total, lines_executed=hit, lines_missing=len(missing) - len(imiss),
+                       member_functions=nmem, members_never_instantiated=len(imiss),
+                       runs=ndirected * nd + nr + nr // 2)
+        json.dump(dict(key=key, summary=summary, missing=missing), open(res_file, "w"))
+        for f in os.listdir(d):
+            if f.endswith((".gcov", ".gcda", ".gcno", ".o")) or f == "c":
+                try:
+                    os.remove(os.path.join(d, f))
+                except OSError:
+                    pass
+        return summary, missing
 
 
 def explore(prop, tier, seed, comp_names, t0):
@@ -417,6 +526,13 @@ def explore(prop, tier, seed, comp_names, t0):
         if summary.get("missing"):
             problems.append(dict(kind="coverage", component=cname, detail="model edges never exercised: " + " ".join(summary["missing"]),
                                  run=None))
+        csum, cmiss = coverage_check(cname, c, seed)
+        if csum is not None:
+            cs["source_coverage"] = csum
+        if cmiss:
+            problems.append(dict(kind="coverage", component=cname,
+                                 detail="header lines never executed by the harness (code the tie has not compared with the model): "
+                                        + " | ".join(cmiss[:12]), run=None))
         if time.time() - t0 > 3000:
             break
     return stats, problems
@@ -443,6 +559,16 @@ def run_check(prop, tier, seed):
         lean_problem = (lean_problem or "") + "\nforbidden tokens:\n" + "\n".join(forb)
     if bad:
         lean_problem = (lean_problem or "") + "\naxiom audit:\n" + json.dumps(bad, indent=1)
+    # 2b. thorough tier: independent re-check of the compiled proofs with leanchecker (one module per call)
+    rechecked = []
+    if ok and tier == "thorough" and not lean_problem:
+        for f in spec["lean_files"]:
+            mod = f[:-5].replace("/", ".")
+            rc, out = sh(["lake", "env", "leanchecker", mod], cwd=LEAN, timeout=3000)
+            if rc != 0:
+                lean_problem = (lean_problem or "") + "\nleanchecker %s failed:\n%s" % (mod, out[-2000:])
+            else:
+                rechecked.append(mod)
     # 3. property-specific extra obligations (e.g. regenerated bodies)
     extra = {}
     if spec.get("pre") is not None and ok:
@@ -519,7 +645,7 @@ def run_check(prop, tier, seed):
                 prop, ", ".join(spec["lean_files"])),
             trusted_base=spec.get("trusted_base", []) + COMMON_TRUSTED,
             theorems=names, axioms_used=sorted(set(a for n in names for a in axioms.get(n, []))),
-            extra_obligations=extra.get("detail"),
+            extra_obligations=extra.get("detail"), leanchecker_rechecked=rechecked,
             traces_validated_against_impl=sum(c["accepted"] for c in stats["components"].values()),
             evaluations=total_runs, events=sum(c["events"] for c in stats["components"].values()),
             distinct_nontrivial=sum(c["distinct_traces"] for c in stats["components"].values()),
